@@ -3,6 +3,8 @@
 package verifharness_test
 
 import (
+	"crypto/tls"
+	"io"
 	"net/http"
 	"net/url"
 	"sort"
@@ -195,7 +197,14 @@ func (q Req) clone() Req {
 	return Req{Method: q.Method, Header: cloneHeader(q.Header)}
 }
 
-func (q Req) httpReq() *http.Request {
+// httpReq builds the *http.Request. Everything about a request other than its method and header fields is IRRELEVANT to
+// every property (a preflight is OPTIONS + Origin + Access-Control-Request-Method whatever its target, body, protocol
+// version or Host), so those attributes vary with a hash of the request: protocol version, Host (incl. the host:port of
+// the request's own Origin, with r.TLS set for an https origin), request target (`*` for OPTIONS), Content-Length and
+// body (lesson of seeded changes C16-o, C10-o, C11-o, C18-o). Variant forces one combination (0 = by hash).
+func (q Req) httpReq() *http.Request { return q.httpReqVariant(0) }
+
+func (q Req) httpReqVariant(variant uint64) *http.Request {
 	h := make(http.Header, len(q.Header))
 	for k, v := range q.Header {
 		if v == nil {
@@ -204,7 +213,55 @@ func (q Req) httpReq() *http.Request {
 			h[k] = append(make([]string, 0, len(v)), v...)
 		}
 	}
-	return &http.Request{Method: q.Method, URL: fixedURL, Proto: "HTTP/1.1", ProtoMajor: 1, ProtoMinor: 1, Header: h, Host: fixedURL.Host}
+	r := &http.Request{Method: q.Method, URL: fixedURL, Proto: "HTTP/1.1", ProtoMajor: 1, ProtoMinor: 1, Header: h, Host: fixedURL.Host, RequestURI: "/resource"}
+	x := variant
+	if x == 0 {
+		var sb strings.Builder
+		sb.WriteString(q.Method)
+		for _, k := range []string{hOrigin, hACRM, hACRH, hACRPN} {
+			for _, v := range q.Header[k] {
+				if len(v) < 512 {
+					sb.WriteString(v)
+				}
+				sb.WriteByte(0)
+			}
+		}
+		x = hashString(sb.String())
+	}
+	switch x % 4 { // protocol version
+	case 1:
+		r.Proto, r.ProtoMajor, r.ProtoMinor = "HTTP/2.0", 2, 0
+	case 2:
+		r.Proto, r.ProtoMajor, r.ProtoMinor = "HTTP/1.0", 1, 0
+	}
+	switch x >> 2 % 4 { // Host (and TLS): unrelated, with a port, the request's own origin
+	case 1:
+		r.Host = "localhost:8080"
+	case 2, 3:
+		if o := q.Header[hOrigin]; len(o) > 0 {
+			if i := strings.Index(o[0], "://"); i > 0 && len(o[0]) < 300 {
+				r.Host = o[0][i+3:]
+				if o[0][:i] == "https" {
+					r.TLS = &tls.ConnectionState{}
+				}
+				r.URL = &url.URL{Scheme: o[0][:i], Host: r.Host, Path: "/resource"}
+			}
+		}
+	}
+	switch x >> 4 % 4 { // body
+	case 1:
+		r.ContentLength = 5
+		r.Body = io.NopCloser(strings.NewReader("hello"))
+	case 2:
+		r.ContentLength = -1
+		r.TransferEncoding = []string{"chunked"}
+		r.Body = io.NopCloser(strings.NewReader("hello"))
+	}
+	if q.Method == "OPTIONS" && x>>6%4 == 1 { // asterisk-form request target
+		r.RequestURI = "*"
+		r.URL = &url.URL{Path: "*"}
+	}
+	return r
 }
 
 type countingHandler struct {
@@ -293,6 +350,19 @@ var decoyCalls atomic.Int64
 
 func (decoyHandler) ServeHTTP(w http.ResponseWriter, r *http.Request) { decoyCalls.Add(1) }
 
+// wrappedPair: a middleware usually wraps SEVERAL handlers (one per route). The harness wraps the dispatching handler twice
+// and sends successive exchanges through the two wrapped handlers alternately; what one of them has seen must not matter to
+// the other (lesson of seeded change C09-o: a "state changed" flag shared by all wrapped handlers, lowered by the first one
+// that notices).
+type wrappedPair struct {
+	hs [2]http.Handler
+	n  atomic.Uint64
+}
+
+func (p *wrappedPair) ServeHTTP(w http.ResponseWriter, r *http.Request) {
+	p.hs[p.n.Add(1)%2].ServeHTTP(w, r)
+}
+
 func wrappedOnce(mw wrapper) http.Handler {
 	if h, ok := wrapCache.Load(mw); ok {
 		return h.(http.Handler)
@@ -301,7 +371,15 @@ func wrappedOnce(mw wrapper) http.Handler {
 	if n%2 == 0 {
 		_ = mw.Wrap(decoyHandler{})
 	}
-	h := mw.Wrap(dispatchHandler{})
+	var h http.Handler
+	if n%4 == 3 {
+		h = mw.Wrap(dispatchHandler{}) // a quarter of the middlewares wrap a single handler
+	} else {
+		p := &wrappedPair{}
+		p.hs[0] = mw.Wrap(dispatchHandler{})
+		p.hs[1] = mw.Wrap(dispatchHandler{})
+		h = p
+	}
 	if n%3 != 0 {
 		_ = mw.Wrap(decoyHandler{})
 	}
